@@ -157,9 +157,17 @@ impl Property for C05 {
                         Run::Done(s) => {
                             let got = render(&s);
                             if &got != exp {
-                                let co = if oracle[*gi].as_ref().map(|s| s.st.co_cycle).unwrap_or(false) { ":coinductive-cycle" } else { "" };
+                                let mut co = if oracle[*gi].as_ref().map(|s| s.st.co_cycle).unwrap_or(false) { ":coinductive-cycle" } else { "" };
+                                let mut dc = super::c10::diff_class(exp, &got);
+                                // growing where-clauses: the derivation is cut off by the size limit at a point that depends on
+                                // what is already tabled; a difference in precision only (one side Ambiguous) is the recorded
+                                // truncation finding of C10/C11
+                                if !(non_growing(&case.pg.program) && non_growing_fields(&case.pg.program)) && (exp.starts_with("Ambiguous") || got.starts_with("Ambiguous")) {
+                                    dc = "precision-only:unbounded-answers".into();
+                                    co = "";
+                                }
                                 out.fail(
-                                    format!("{}:reuse-differs:{}{}", sv.name(), super::c10::diff_class(exp, &got), co),
+                                    format!("{}:reuse-differs:{}{}", sv.name(), dc, co),
                                     format!("[{}] goal `{}` at position {} of the shared-solver order: fresh solver says `{}`, shared solver says `{}`\n{}order (goal texts): {:?}", sv.name(), lg.text, pos, exp, got, low.text, case.order[..=pos].iter().map(|i| low.goals[*i].as_ref().map(|g| g.text.clone()).unwrap_or_default()).collect::<Vec<_>>()),
                                 );
                                 break;
